@@ -124,6 +124,30 @@ Example c14_sender_error_filters_never_destroyed :
   g_destroy (summ src_tree cfg_hdr_refused (sched_answered false)) = 1%nat.
 Proof. exact witness_sender_error_no_destroy. Qed.
 
+(* ---- the send chain on every reply that reaches the client ----
+   the UpFilter phase runs the send filters on every entry (read from the source on this run), and over the family x every schedule
+   - including the configurations in which the re-attempt of a retry finds no healthy host, so that the local 502 is produced in the
+   retry phase after the retried 5xx had already gone through the filters - every reply whose headers are written downstream has
+   passed the chain since it was last replaced ([x_unfilt]: raised by appendHeaders otherwise) *)
+Theorem c14_send_chain_runs_on_every_entry : send_once_per_upreq proxy_src = false.
+Proof. exact (eq_refl false). Qed.
+Theorem c14_every_reply_passed_send_chain_family : forall c, In c family -> forall sched, Forall allowed sched ->
+  x_unfilt (final proxy_src c sched) = false.
+Proof. exact c14_reply_filtered_family. Qed.
+Print Assumptions c14_every_reply_passed_send_chain_family.
+(* with the chain run once per upstreamRequest object (switch set): doRetry keeps the OLD, already marked object when it finds no
+   host; the local 502 - the only response the client gets - bypasses every send filter (each ran once, on the discarded 503) *)
+Example c14_reply_skips_send_filters_witness :
+  x_unfilt (final src_send_once cfg_nohost sched_503_then_nohost) = true /\
+  scalls (final src_send_once cfg_nohost sched_503_then_nohost) = [1%nat; 1%nat] /\
+  g_reply_kind (summ src_send_once cfg_nohost sched_503_then_nohost) = Some (KHijack, 502) /\
+  g_ended (summ src_send_once cfg_nohost sched_503_then_nohost) = true /\
+  x_unfilt (final src_tree cfg_nohost sched_503_then_nohost) = false /\
+  scalls (final src_tree cfg_nohost sched_503_then_nohost) = [2%nat; 2%nat] /\
+  g_reply_kind (summ src_tree cfg_nohost sched_503_then_nohost) = Some (KHijack, 502) /\
+  nnew (final src_tree cfg_nohost sched_503_then_nohost) = 1%nat.
+Proof. exact witness_reply_skips_send_filters. Qed.
+
 (* ---- the built-in filters that deny: ip_access, payload_limit, fault_inject (abort) - Model/ProxyBuiltin.v ----
    [decide_spec l r q]: the decisions as a pure function of the listener-level configuration l, the per-route configuration of THIS
    request's route r and the request q (effective configuration = the route's override if present, else the listener's; payload_limit
